@@ -11,14 +11,18 @@ history runs on is left as it is, the clone is observed with `hg.snapshot` and t
 (compared with `SC.copy` / `HG.pickleRoundTrip` / `SC.ofComplex` of the model, lean/XgiModel/C03/Copy.lean).  These ops
 and `freeze` have generator weight 0 here; the checks that want them pass weights (props/c03.py does).
 """
+import copy
 import itertools
 import pickle
+import random as pyrandom
 
 import xgi
 
 from . import hg
-from .dhg import CallTimeout, guarded
-from .core import dec_id, enc_attrs_req, enc_id, idkey
+from .dhg import CallTimeout, guarded, xdec, xenc, xsafe, is_exotic, model_request, XIDS
+from .core import enc_attrs, enc_attrs_req, enc_id, idkey
+
+dec_id = xdec      # IDs of the ops are decoded with the extended decoder of dhg.py ("$x:…" = uuid / float / numpy / huge int)
 
 # ----------------------------------------------------------------------------- generation
 
@@ -37,6 +41,19 @@ EDGE_UNIVERSES = [
     [0, 1, 5, "e", "10", -2, 7],
     [3, 2, 1, 0, 9, 15],
 ]
+# Opt-in input families (a check asks for them through `weights`, e.g. {"$exotic": 0.15}; the value is the share of
+# histories that use the family.  Default 0: the other checks that drive this state machine keep their inputs):
+#   "$exotic"    explicit simplex IDs outside int/str (dhg.XIDS: uuid.UUID, 10**309, 1.0 / 2.0 / 2.5, numpy ints, bytes)
+#   "$tuples"    tuple node labels (TUPLE_UNIVERSES); bulk format 1 then hands every member container over as a set
+#                (a list of tuple labels is misread by the format sniffing — V4 of review 2, outside this check)
+#   "$large"     one history on >= 70 labels with simplex IDs above 2**53 (regime family)
+#   "$containers" member containers other than list: set, frozenset, tuple, dict keys, numpy array, generator
+TUPLE_UNIVERSES = [
+    [(0, 0), (0, 1), (1, 1), (1, 0)],
+    [(0, 0), (0, 1), (1, 1), "a", 2],
+    [("a", 1), ("a", 2), ("b", 1), (0,), (1, 2, 3)],
+]
+BIG = 2 ** 53
 ATTR_KEYS = hg.ATTR_KEYS
 ATTR_VALS = hg.ATTR_VALS
 MAX_ORDERS = [None, None, None, 0, 1, 1, 2, 2, 3, 4]
@@ -51,6 +68,19 @@ DEFAULTS = {
 }
 
 
+def _dkey(j):
+    """the dict key an encoded ID stands for (np.int64(7) == 7.0 == 7 are one key)"""
+    if isinstance(j, str) and j.startswith("$x:np:"):
+        return repr(int(j[6:]))
+    if isinstance(j, str) and j.startswith("$x:float:") and float(j[9:]).is_integer():
+        return repr(int(float(j[9:])))
+    return repr(j)
+
+
+def _hashable(j):
+    return tuple(j) if isinstance(j, list) else j
+
+
 class Gen:
     OPS = {
         "add_simplex": 16, "add_simplices_from": 18, "add_weighted_simplices_from": 4,
@@ -58,6 +88,7 @@ class Gen:
         "add_edge": 3, "add_edges_from": 3, "add_weighted_edges_from": 1, "remove_edge": 2, "remove_edges_from": 2,
         "close": 2, "cleanup": 2, "has_simplex": 6, "add_node": 2, "add_nodes_from": 1, "clear": 0.3,
         "clear_edges": 0.3, "freeze": 0, "copy": 0, "pickle": 0, "construct": 0,
+        "random_edge_shuffle": 0, "double_edge_swap": 0, "remove_node_from_edge": 0, "add_node_to_edge": 0,
     }
 
     def __init__(self, rng, weights=None, malformed=0.03):
@@ -65,7 +96,17 @@ class Gen:
         self.nodes = rng.choice(NODE_UNIVERSES)
         self.eids = rng.choice(EDGE_UNIVERSES)
         self.malformed = malformed
-        self.weights = weights or {}
+        self.weights = dict(weights or {})
+        fam = {k: self.weights.pop(k, 0) for k in ("$exotic", "$tuples", "$large", "$containers")}
+        self.exotic = rng.random() < fam["$exotic"]
+        self.containers = rng.random() < fam["$containers"]
+        self.tuples = rng.random() < fam["$tuples"]
+        if self.tuples:
+            self.nodes = rng.choice(TUPLE_UNIVERSES)
+        self.large = fam["$large"] and rng.random() < fam["$large"]
+        if self.large:
+            self.nodes = list(range(100, 172)) + [BIG + 2, BIG + 4]
+            self.eids = [BIG + 1, BIG + 3, BIG + 5, 0, 3, 200]
         self.seen = []            # member lists generated so far (for already-present / overlapping simplices)
 
     def node(self):
@@ -76,7 +117,25 @@ class Gen:
     def eid(self):
         if self.rng.random() < self.malformed:
             return None
+        if self.exotic and self.rng.random() < 0.4:
+            return self.rng.choice(XIDS)
         return self.rng.choice(self.eids)
+
+    def first_set(self, op):
+        """tuple labels: the first simplex of a format-1 bunch decides the format and must be a set (see $tuples above),
+        hence duplicate-free and without None"""
+        if self.tuples and op["fmt"] == 1 and op["items"]:
+            first = op["items"][0]
+            first["members"] = [m for m in dict.fromkeys(map(_hashable, first["members"])) if m is not None]
+            first["members"] = [list(m) if isinstance(m, tuple) else m for m in first["members"]]
+
+    def container(self):
+        """how the members of one simplex are handed over (None = a list)"""
+        if self.tuples:
+            return self.rng.choice(["set", "frozenset"])
+        if self.containers:
+            return self.rng.choice(["set", "frozenset", "tuple", "dictkeys", "nparray", "iter", "list"])
+        return None
 
     def members(self, lo=1, hi=6):
         r = self.rng
@@ -114,7 +173,7 @@ class Gen:
     def item(self, fmt):
         it = {"members": self.members()}
         if fmt in (2, 4, 5):
-            it["idx"] = enc_id(self.eid())
+            it["idx"] = xenc(self.eid())
         if fmt in (3, 4):
             it["attr"] = enc_attrs_req(self.attrs(0.6))
         return it
@@ -124,8 +183,8 @@ class Gen:
         if fmt == 5:                                             # dict keys are unique
             seen, out = set(), []
             for it in items:
-                if repr(it["idx"]) not in seen:
-                    seen.add(repr(it["idx"])); out.append(it)
+                if _dkey(it["idx"]) not in seen:
+                    seen.add(_dkey(it["idx"])); out.append(it)
             items = out
         return items
 
@@ -138,8 +197,8 @@ class Gen:
 
     def some_ids(self):
         r = self.rng
-        pool = list(range(0, 14)) + self.eids
-        return [enc_id(r.choice(pool)) if r.random() > self.malformed else None for _ in range(r.randint(0, 4))]
+        pool = list(range(0, 14)) + self.eids + (XIDS if self.exotic else [])
+        return [xenc(r.choice(pool)) if r.random() > self.malformed else None for _ in range(r.randint(0, 4))]
 
     def op(self):
         op = self._op()
@@ -164,17 +223,32 @@ class Gen:
         name = r.choices(names, [w[n] for n in names])[0]
         b = lambda p=0.5: r.random() < p
         if name in ("add_simplex", "add_edge"):
-            idx = "$auto" if b(0.55) else enc_id(self.eid())
+            idx = "$auto" if b(0.55) else xenc(self.eid())
             return {"op": name, "members": self.members(), "idx": idx, "attr": enc_attrs_req(self.attrs())}
         if name in ("add_simplices_from", "add_edges_from"):
             fmt = r.choice([1, 1, 1, 2, 3, 4, 5, 5])
-            return {"op": name, "fmt": fmt, "items": self.items(fmt), "max_order": r.choice(MAX_ORDERS),
-                    "attr": enc_attrs_req(self.attrs(0.3)), "share_sets": "iter" if r.random() < 0.1 else False}
+            op = {"op": name, "fmt": fmt, "items": self.items(fmt), "max_order": r.choice(MAX_ORDERS),
+                  "attr": enc_attrs_req(self.attrs(0.3)), "share_sets": "iter" if r.random() < 0.1 else False}
+            c = self.container()
+            if c and op["items"] and r.random() < 0.35:
+                # the same simplex twice in one bunch (members in another order), a few positions apart
+                dup = copy.deepcopy(r.choice(op["items"]))
+                r.shuffle(dup["members"])
+                if "idx" in dup:
+                    dup["idx"] = xenc(self.eid())
+                if fmt != 5 or _dkey(dup["idx"]) not in {_dkey(it["idx"]) for it in op["items"]}:
+                    op["items"].append(dup)
+            self.first_set(op)
+            if c:
+                op["share_sets"] = False
+                op["containers"] = c
+                op["bunch"] = r.choice(["list", "list", "tuple", "iter"])
+            return op
         if name in ("add_weighted_simplices_from", "add_weighted_edges_from"):
             wname, items, at = self.witems()
             return {"op": name, "weight": wname, "items": items, "max_order": r.choice(MAX_ORDERS), "attr": enc_attrs_req(at)}
         if name in ("remove_simplex_id", "remove_edge"):
-            e = enc_id(r.choice(list(range(0, 10)) + self.eids)) if r.random() > self.malformed else None
+            e = xenc(r.choice(list(range(0, 10)) + self.eids + (XIDS if self.exotic else []))) if r.random() > self.malformed else None
             return {"op": name, "e": e}
         if name in ("remove_simplex_ids_from", "remove_edges_from"):
             return {"op": name, "es": self.some_ids()}
@@ -204,6 +278,15 @@ class Gen:
             return {"op": name}
         if name == "construct":
             return {"op": name, "attr": enc_attrs_req(self.attrs(0.4))}
+        # inherited Hypergraph mutators (weight 0 unless the check names them)
+        if name == "random_edge_shuffle":
+            return {"op": name, "e1": xenc(r.choice(list(range(0, 6)) + self.eids)), "e2": xenc(r.choice(list(range(0, 6)) + self.eids)),
+                    "seed": r.randrange(10 ** 6)}
+        if name == "double_edge_swap":
+            return {"op": name, "n1": enc_id(self.node()), "n2": enc_id(self.node()),
+                    "e1": xenc(r.choice(list(range(0, 6)) + self.eids)), "e2": xenc(r.choice(list(range(0, 6)) + self.eids))}
+        if name in ("remove_node_from_edge", "add_node_to_edge"):
+            return {"op": name, "e": xenc(r.choice(list(range(0, 6)) + self.eids)), "n": enc_id(self.node())}
         raise AssertionError(name)
 
 
@@ -211,6 +294,23 @@ def gen_history(rng, lo=1, hi=30, weights=None, malformed=0.03):
     g = Gen(rng, weights, malformed)
     k = rng.randint(lo, hi)
     ops = []
+    if g.large:
+        # regime family: >= 70 node labels (two of them above 2**53), >= 70 simplex IDs, explicit IDs above 2**53
+        items, used = [], set()
+        for j in range(40):
+            ms = rng.sample(g.nodes, rng.choice([2, 2, 3, 3, 4]))
+            if j < 2:
+                ms[0] = g.nodes[-1 - j]
+            key = frozenset(ms)
+            if key in used:
+                continue
+            used.add(key)
+            items.append({"members": [enc_id(m) for m in ms], "idx": BIG + 10 + 2 * j if j % 3 else 300 + j})
+            g.seen.append(ms)
+        fmt = rng.choice([2, 5])
+        ops.append({"op": "add_simplices_from", "fmt": fmt, "items": items, "max_order": None, "attr": []})
+        ops += [g.op() for _ in range(min(k, 6))]
+        return ops
     if rng.random() < 0.6:            # a well-formed bulk start makes non-trivial states likely
         fmt = rng.choice([1, 1, 2, 3, 4, 5])
         items = g.items(fmt, 1, 4)
@@ -221,10 +321,15 @@ def gen_history(rng, lo=1, hi=30, weights=None, malformed=0.03):
         if fmt == 5:
             seen, out = set(), []
             for it in items:
-                if repr(it["idx"]) not in seen:
-                    seen.add(repr(it["idx"])); out.append(it)
+                if _dkey(it["idx"]) not in seen:
+                    seen.add(_dkey(it["idx"])); out.append(it)
             items = out
-        ops.append({"op": "add_simplices_from", "fmt": fmt, "items": items, "max_order": None, "attr": []})
+        op0 = {"op": "add_simplices_from", "fmt": fmt, "items": items, "max_order": None, "attr": []}
+        c = g.container()
+        g.first_set(op0)
+        if c:
+            op0.update(containers=c, bunch="list")
+        ops.append(op0)
     ops += [g.op() for _ in range(k)]
     return ops
 
@@ -235,9 +340,49 @@ _RES = {}
 _CLONE = {}
 
 
+def sids(it):
+    return sorted((xsafe(x) for x in it), key=idkey)
+
+
+def hg_snapshot(H, out="ok"):
+    """hg.snapshot with the extended ID reader (dhg.xsafe): exotic simplex IDs stay readable"""
+    nodes, edges = list(H.nodes), list(H.edges)
+    s = {"out": out, "nodes": [xsafe(n) for n in nodes], "edges": [xsafe(e) for e in edges]}
+    mem, memb, nattr, eattr = [], [], [], []
+    for e in edges:
+        try:
+            mem.append([xsafe(e), sids(H.edges.members(e))])
+        except Exception as ex:  # noqa
+            mem.append([xsafe(e), "$err:" + type(ex).__name__])
+        try:
+            eattr.append([xsafe(e), enc_attrs(H.edges[e])])
+        except Exception:  # noqa
+            eattr.append([xsafe(e), "$missing"])
+    for n in nodes:
+        try:
+            memb.append([xsafe(n), sids(H.nodes.memberships(n))])
+        except Exception as ex:  # noqa
+            memb.append([xsafe(n), "$err:" + type(ex).__name__])
+        try:
+            nattr.append([xsafe(n), enc_attrs(H.nodes[n])])
+        except Exception:  # noqa
+            nattr.append([xsafe(n), "$missing"])
+    s.update(mem=mem, memb=memb, nattr=nattr, eattr=eattr)
+    na, ea = getattr(H, "_node_attr", None), getattr(H, "_edge_attr", None)
+    s["nattrK"] = sids(na.keys()) if na is not None else sids(nodes)
+    s["eattrK"] = sids(ea.keys()) if ea is not None else sids(edges)
+    s["net"] = enc_attrs(getattr(H, "_net_attr", {}))
+    try:
+        s["uid"] = next(copy.copy(H._edge_uid))
+    except Exception:  # noqa
+        s["uid"] = "$err"
+    s["frozen"] = bool(H.is_frozen)
+    return s
+
+
 def _clone_snap(T):
     """observation of a clone: the undirected snapshot without the outcome field"""
-    c = hg.snapshot(T, "ok")
+    c = hg_snapshot(T, "ok")
     c.pop("out", None)
     return c
 
@@ -247,10 +392,81 @@ def _kw(op, **kw):
     return {k: v for k, v in kw.items() if k not in op.get("omit", ())}
 
 
+def _container(kind, ms, it=None):
+    """the member container of one simplex.  Set-like containers are used only for duplicate-free member lists without
+    None (a set would hide the repetition the model is told about); their iteration order is written back into the item
+    so that the model sees the members in the order the implementation iterates them."""
+    import numpy as np
+    plain = len(set(map(repr, ms))) == len(ms) and None not in ms
+    if kind in ("set", "frozenset") and plain:
+        try:
+            st = set(ms) if kind == "set" else frozenset(ms)
+        except TypeError:
+            return ms
+        if it is not None:
+            it["members"] = [xenc(x) for x in st]
+        return st
+    if kind == "tuple":
+        return tuple(ms)
+    if kind == "dictkeys" and plain:
+        return dict.fromkeys(ms).keys()
+    if kind == "nparray" and ms and all(type(m) is int and abs(m) < 2 ** 62 for m in ms):
+        return np.array(ms)
+    if kind == "iter":
+        return iter(ms)
+    return ms
+
+
+def _ebunch(op):
+    """ebunch of a bulk call whose op names a member container (`containers`) and a bunch container (`bunch`).
+    Format 1: the library sniffs the format from the first simplex; a set / frozenset there is a member set whatever it
+    holds, a list whose first label is a str next to non-str labels is refused — the first simplex stays a list exactly
+    when that rule applies to it (the model's format-1 rule is the list rule)."""
+    fmt, items, kind = op["fmt"], op["items"], op["containers"]
+    out = {} if fmt == 5 else []
+    for j, it in enumerate(items):
+        ms = [dec_id(m) for m in it["members"]]
+        first_list = fmt == 1 and j == 0 and ms and isinstance(ms[0], str) and not all(isinstance(m, str) for m in ms)
+        c = ms if first_list else _container(kind, ms, it)
+        if fmt == 1 and j == 0 and isinstance(c, (set, frozenset)):
+            # a set in first position is format 1 whatever it holds: the model's list rule must not fire on the order in
+            # which the set happens to iterate (the order of the members is immaterial to the model otherwise: faces and
+            # nodes are ordered by the hints)
+            it["members"] = sorted(it["members"], key=lambda m: isinstance(m, str))
+        if fmt == 5:
+            out[dec_id(it["idx"])] = c
+        elif fmt == 1:
+            out.append(c)
+        elif fmt == 2:
+            out.append((c, dec_id(it["idx"])))
+        elif fmt == 3:
+            out.append((c, hg._attrs(it.get("attr", []))))
+        else:
+            out.append((c, dec_id(it["idx"]), hg._attrs(it.get("attr", []))))
+    if fmt != 5 and op.get("bunch") == "tuple":
+        return tuple(out)
+    if fmt != 5 and op.get("bunch") == "iter":
+        return iter(out)
+    return out
+
+
+INHERITED = ("random_edge_shuffle", "double_edge_swap", "remove_node_from_edge", "add_node_to_edge")
+
+
 def _plain(S, op):
     """the public call itself"""
     name = op["op"]
     A = hg._attrs
+    if name == "random_edge_shuffle":
+        pyrandom.seed(op["seed"])
+        return S.random_edge_shuffle(dec_id(op["e1"]), dec_id(op["e2"]))
+    if name == "double_edge_swap":
+        return S.double_edge_swap(dec_id(op["n1"]), dec_id(op["n2"]), dec_id(op["e1"]), dec_id(op["e2"]))
+    if name in ("remove_node_from_edge", "add_node_to_edge"):
+        return getattr(S, name)(dec_id(op["e"]), dec_id(op["n"]))
+    if name in ("add_simplices_from", "add_edges_from") and (op.get("containers") or is_exotic(op["items"])):
+        op.setdefault("containers", "list")
+        return getattr(S, name)(_ebunch(op), **_kw(op, max_order=op["max_order"]), **A(op["attr"]))
     if name in ("add_simplex", "add_edge"):
         ms = [dec_id(m) for m in op["members"]]
         kw = {} if op["idx"] == "$auto" else {"idx": dec_id(op["idx"])}
@@ -356,16 +572,19 @@ def snapshot(S, out="ok"):
     if S.__dict__.get("_verif_hung") is not None:
         # after a call that never returned the object may hold millions of entries: observe an empty complex instead
         # (the predicate reports `call-does-not-return` from the outcome alone)
-        s = hg.snapshot(xgi.SimplicialComplex(), out)
+        s = hg_snapshot(xgi.SimplicialComplex(), out)
         s.update(res=_RES.pop(id(S), None), clone=_CLONE.pop(id(S), None), memtype=[], has=None)
         return s
     try:
-        s = hg.snapshot(S, out)
+        s = hg_snapshot(S, out)
+        bad = [x for x in s["nodes"] + s["edges"] if isinstance(x, str) and x.startswith("$bad:")]
+        if bad:
+            raise ValueError(f"an object that was never given as an ID is stored as a node / simplex: {bad[:3]}")
     except ValueError as ex:
         # an object that is no ID of the model's domain is stored as a node / simplex (what a wrong edit of the library
         # may do with a one-shot iterator): the history goes on with the snapshot of an empty complex marked "garbage",
         # which the predicate reports (harness/props/c03.py `id-outside-domain`) and the model cannot match
-        s = hg.snapshot(xgi.SimplicialComplex(), out)
+        s = hg_snapshot(xgi.SimplicialComplex(), out)
         s.update(garbage=str(ex)[:200], res=_RES.pop(id(S), None), clone=_CLONE.pop(id(S), None), memtype=[], has=None)
         return s
     s["res"] = _RES.pop(id(S), None)
@@ -375,7 +594,7 @@ def snapshot(S, out="ok"):
     for e in S.edges:
         try:
             if not isinstance(S.edges.members(e), frozenset):
-                nf.append(_enc_or_none(e))
+                nf.append(xsafe(e))
         except Exception:  # noqa  (unreadable members are reported by "mem")
             pass
     s["memtype"] = nf
@@ -396,7 +615,13 @@ def snapshot(S, out="ok"):
 
 
 def to_request(op):
-    return {k: v for k, v in op.items() if k not in ("weight", "share_sets", "omit")}
+    if op["op"] in ("random_edge_shuffle", "add_node_to_edge"):
+        return {"op": "inherited_refused"}       # "… is not implemented in SimplicialComplex" (no write, library error)
+    if op["op"] in INHERITED or op.get("containers") == "nparray":
+        # (a numpy array as member container is refused by `if not members` with ValueError — before the first write when
+        #  it is the first simplex, half-way otherwise; the model has no arrays: predicate only)
+        return {"op": "outside-model"}
+    return model_request({k: v for k, v in op.items() if k not in ("weight", "share_sets", "omit", "containers", "bunch", "seed")})
 
 
 def nontrivial(snap, kinds):
